@@ -22,6 +22,8 @@ inductive Ev
   | endObs (t : Nat)
   | restoreInvoke (srv life t : Nat)
   | restore (srv life t0 t1 : Nat) (ok : Bool) (metaIdx last : Nat) (data : List Nat)
+  | restoreDuringTransfer (srv life : Nat)   -- a Restore returned nil while a leadership transfer of that leader was still pending
+  | restoreRefused (srv life code : Nat) (data : List Nat)   -- the Restore was answered with a refusal (1 not leader, 5 transfer in progress)
   | dead (srv life : Nat)
   | crash (srv life t : Nat)
   | invoke (cid : Nat)
@@ -457,6 +459,23 @@ def shutdownCompletes (h : List Ev) : Option String :=
 def leaderChLatest (h : List Ev) : Option String :=
   h.findSome? (fun e => match e with
     | .leaderCh srv _ (some v) isL => if v != isL then some s!"LeaderCh-of-{srv}-holds-{v}-while-leader={isL}" else none
+    | _ => none)
+
+/-- C20: a Restore that is *refused* (the server is not leader, or a leadership transfer is in
+    progress) does nothing at all: the state it carried is never handed to any FSM -/
+def refusedRestoreInert (h : List Ev) : Option String :=
+  h.findSome? (fun e => match e with
+    | .restoreRefused srv _ code data =>
+        if data.isEmpty then none else
+        h.findSome? (fun x => match x with
+          | .frestore s _ d => if d == data then some s!"refused-restore-(code-{code})-of-{srv}-took-effect-on-{s}" else none
+          | _ => none)
+    | _ => none)
+
+/-- C20: no Restore is accepted while a leadership transfer is in progress -/
+def noRestoreDuringTransfer (h : List Ev) : Option String :=
+  h.findSome? (fun e => match e with
+    | .restoreDuringTransfer srv _ => some s!"restore-accepted-on-{srv}-while-a-leadership-transfer-was-in-progress"
     | _ => none)
 
 /-- F16: a user Restore that did not complete (the leader was stopped while it ran) leaves its
